@@ -108,6 +108,25 @@ def check_custom(s, how, style, handled_sql, handled_dbml, schedule, case):
             viols.append(Viol(f'c16:custom:db.{what}', f'db.{what} does not come from the configured class: {got[:80]!r}', case))
     if extract(db) != before:
         viols.append(Viol('c16:purity:custom', 'rendering changed the model', case))
+    # the configured renderers stay in charge whatever the database currently holds: remove every table
+    if db.tables:
+        for t in list(db.tables):
+            try:
+                db.delete(t)
+            except Exception as e:  # noqa
+                viols.append(Viol('c16:custom:delete-table', f'deleting a table raised {type(e).__name__}: {e}', case))
+        for name, el in [(n, e) for n, e in els if n in ('Enum', 'Project', 'StickyNote')]:
+            for what in ('sql', 'dbml'):
+                if not has(el, what):
+                    continue
+                try:
+                    got = getattr(el, what)
+                except Exception as e:  # noqa
+                    viols.append(Viol(f'c16:custom:no-tables:raise:{name}.{what}', f'{name}.{what} raised {type(e).__name__} once the database holds no tables', case))
+                    continue
+                if got != expect(what, name, el):
+                    viols.append(Viol(f'c16:custom:no-tables:{name}.{what}', f'once the database holds no tables {name}.{what} is {got[:80]!r}, expected {expect(what, name, el)!r} from the configured renderer', case))
+        db = get_db(s, how, style, sql_renderer=R_sql, dbml_renderer=R_dbml)
     # detached elements fall back to the default renderers
     twin = get_db(s, how, style)
     pairs = list(zip(db.enums, twin.enums)) + list(zip(db.table_groups, twin.table_groups)) + list(zip(db.refs, twin.refs))
@@ -226,7 +245,7 @@ def shard(ctx: Ctx):
 
     @st.composite
     def cases(draw):
-        s = draw(gen.schemas(feats, sizes, min_tables=1))
+        s = draw(gen.schemas(feats, sizes, min_tables=0))
         hs = set(draw(st.lists(st.sampled_from(TYPE_NAMES), unique=True)))
         hd = set(draw(st.lists(st.sampled_from(TYPE_NAMES), unique=True)))
         sched = draw(st.lists(st.tuples(st.integers(0, 14), st.sampled_from(['sql', 'dbml'])), max_size=12))
